@@ -16,8 +16,6 @@ the budget, and the units charged. -/
 
 namespace C46Drv
 
-def G := Generated.C46
-
 def weights : Weights :=
   { const := Generated.C46.W_CONST
     bin := fun b => match b with
